@@ -7,6 +7,7 @@
 import Carapace.Model.ExportDecode
 import Carapace.Props.C13
 import Carapace.Gen.CharSets
+import Carapace.Lemmas.Sort
 
 namespace Carapace.Props.C13
 open Carapace Carapace.Model
@@ -314,5 +315,15 @@ example : parseExport (marshalExport "v1".toList
            values := some [{ value := "a".toList, display := "".toList, description := "d\n".toList, uid := "u".toList },
                            { value := "b\",\"display\":\"x".toList, display := "}".toList, tag := "t".toList }] } := by
   rw [C13_document_roundtrip]; decide
+
+/-- **nothing lost, nothing added, nothing merged**: the candidates the reading side holds are the exported ones up
+    to order (a permutation: every candidate with all six fields, as often as it was exported), and messages, no-space
+    characters and usage are the exported ones - for the `export` wire format this is also C04's "one intact record per
+    candidate" and the well-formedness half of C18 -/
+theorem C13_candidates_perm (version : Str) (m : Meta) (vs : List RawValue) :
+    ∃ d, parseExport (marshalExport version m (some vs)) = some d ∧
+      (∃ ws, d.values = some ws ∧ ws.Perm vs) ∧ d.messages = m.messages ∧ d.nospace = m.nospace ∧ d.usage = m.usage := by
+  refine ⟨_, C13_document_roundtrip version m (some vs), ⟨_, rfl, ?_⟩, rfl, rfl, rfl⟩
+  exact sortBy_perm _ vs
 
 end Carapace.Props.C13
